@@ -115,9 +115,9 @@ enum E {
     Un(Box<E>, Box<E>),
     In(Box<E>, Box<E>),
     Mi(Box<E>, Box<E>),
-    // --- not modelled in Lean: checked by the oracle only ---
     Merge(Box<E>),
     Forks,
+    // --- not modelled in Lean: checked by the oracle only ---
     /// `at_operation(op1, x)` / `x.within_visibility(repo1)`: symbols and visibility of the earlier operation
     Scope(Box<E>),
 }
@@ -152,7 +152,7 @@ fn gen_leaf(r: &mut Rng, n: usize) -> E {
 fn gen_e(r: &mut Rng, d: usize, n: usize) -> E {
     if d == 0 || r.below(5) == 0 { return gen_leaf(r, n); }
     let sub = |r: &mut Rng| bx(gen_e(r, d - 1, n));
-    match r.below(43) {
+    match r.below(44) {
         0..=4 => { let (a, b) = gen_range(r); E::Anc(sub(r), a, b, false) }
         5 | 6 => { let (a, b) = gen_range(r); E::Anc(sub(r), a, b, true) }
         7..=10 => { let (a, b) = gen_range(r); E::Desc(sub(r), a, b) }
@@ -172,7 +172,7 @@ fn gen_e(r: &mut Rng, d: usize, n: usize) -> E {
         37 => E::Latest(sub(r), r.below(4)),
         38 => E::HeadsRange(sub(r), sub(r), r.chance(1, 4), if r.chance(1, 3) { bx(E::All) } else { sub(r) }),
         39 => E::Anc(sub(r), 0, None, false),
-        40 => E::Merge(sub(r)),
+        40 | 41 => E::Merge(sub(r)),
         _ => E::Scope(sub(r)),
     }
 }
@@ -335,8 +335,8 @@ fn show(e: &E) -> String {
         E::Un(a, b) => format!("U({},{})", show(a), show(b)),
         E::In(a, b) => format!("I({},{})", show(a), show(b)),
         E::Mi(a, b) => format!("M({},{})", show(a), show(b)),
-        E::Merge(x) => format!("merge_point({})", show(x)),
-        E::Forks => "forks".into(),
+        E::Merge(x) => format!("P({})", show(x)),
+        E::Forks => "f".into(),
         E::Scope(x) => format!("scope({})", show(x)),
     }
 }
@@ -344,9 +344,9 @@ fn show(e: &E) -> String {
 /// contains an operator outside the Lean model (then only the oracle is consulted)
 fn unmodelled(e: &E) -> bool {
     match e {
-        E::Merge(_) | E::Forks | E::Scope(_) => true,
-        E::None | E::All | E::VisibleHeads | E::Vhor | E::Root | E::Commits(_) => false,
-        E::Anc(x, ..) | E::Desc(x, ..) | E::Heads(x) | E::Roots(x) | E::Fork(x) | E::Latest(x, _) | E::Not(x) => unmodelled(x),
+        E::Scope(_) => true,
+        E::None | E::All | E::VisibleHeads | E::Vhor | E::Root | E::Commits(_) | E::Forks => false,
+        E::Anc(x, ..) | E::Desc(x, ..) | E::Heads(x) | E::Roots(x) | E::Fork(x) | E::Latest(x, _) | E::Not(x) | E::Merge(x) => unmodelled(x),
         E::Range(a, b, ..) | E::Dag(a, b) | E::Reach(a, b) | E::Coal(a, b) | E::Un(a, b) | E::In(a, b) | E::Mi(a, b) => unmodelled(a) || unmodelled(b),
         E::HeadsRange(a, b, _, c) => unmodelled(a) || unmodelled(b) || unmodelled(c),
     }
@@ -542,7 +542,7 @@ fn kind(e: &E) -> &'static str {
         E::Range(_, _, 0, None, false) => "range", E::Range(..) => "range-gen", E::Dag(..) => "dag-range", E::Reach(..) => "reachable",
         E::Heads(_) => "heads", E::HeadsRange(..) => "heads-range", E::Roots(_) => "roots", E::Fork(_) => "fork-point", E::Latest(..) => "latest",
         E::Coal(..) => "coalesce", E::Not(_) => "not", E::Un(..) => "union", E::In(..) => "intersection", E::Mi(..) => "difference",
-        E::Merge(_) => "merge-point (oracle only)", E::Forks => "forks (oracle only)", E::Scope(_) => "at-operation scope (oracle only)",
+        E::Merge(_) => "merge-point", E::Forks => "forks", E::Scope(_) => "at-operation scope (oracle only)",
     }
 }
 
@@ -554,7 +554,7 @@ fn check_one(out: &mut Out, g: &G, real: &Real, greq: &str, e: &E, sub: &mut (u6
     if unmodelled(e) {
         // outside the Lean model: evaluated and judged by the oracle only
         out.impl_only(); out.impl_only();
-        out.tally("model", "oracle-only (merge_point / forks / at_operation scope inside)");
+        out.tally("model", "oracle-only (at_operation scope inside)");
     } else {
         out.case(&format!("eval {greq} {es}"), &show_pos(&unopt));
         out.case(&format!("evalopt {greq} {es}"), &show_pos(&opt));
@@ -610,7 +610,7 @@ fn check_one(out: &mut Out, g: &G, real: &Real, greq: &str, e: &E, sub: &mut (u6
 
 pub fn run(cfg: &Cfg, out: &mut Out) {
     let mut r = cfg.rng(19);
-    let graphs = cfg.n(180, 4000);
+    let graphs = cfg.n(180, 2500);
     let per_graph = 28;
     let mut sub = (0u64, 0u64);
     for gi in 0..graphs {
